@@ -268,7 +268,9 @@ def finish(ctx, level_obligations, checker_cmd):
         ),
         assumptions=ctx.assumptions, wall_s=round(ctx.elapsed(), 2), violations=nviol,
     )
-    os.makedirs(os.path.join(VERIF, 'evidence'), exist_ok=True)
-    with open(os.path.join(VERIF, 'evidence', ctx.pid + '.json'), 'w') as f:
+    # evidence is about /repo itself; a run against another tree (VERIF_REPO: seeded changes, scratch worktrees) leaves it alone
+    evdir = os.path.join(VERIF, 'evidence') if os.path.realpath(REPO) == os.path.realpath('/repo') else os.path.join(VERIF, 'replays', 'evidence_other_tree')
+    os.makedirs(evdir, exist_ok=True)
+    with open(os.path.join(evdir, ctx.pid + '.json'), 'w') as f:
         json.dump(ev, f, indent=1, default=str)
     return 1 if nviol else 0
